@@ -902,7 +902,7 @@ class Run:
             (len(cases), nbad, time.time() - t0))
 
     # -- C20 -------------------------------------------------------------------------------------
-    def parallel(self, driver, n, goroutines=16, rounds=1, types=None, seed_off=0, small=False, race_filter=None, prop_clauses="C20", poison=0, abort_violates=True, race=True, rereg=False):
+    def parallel(self, driver, n, goroutines=16, rounds=1, types=None, seed_off=0, small=False, race_filter=None, prop_clauses="C20", poison=0, abort_violates=True, race=True, rereg=False, hammer=0):
         """the driver's histories run alone and then by many goroutines at once (race detector on);
         TLC validates the parallel events sequentially and against their solo twins"""
         vd = self.build()
@@ -911,7 +911,7 @@ class Run:
         if poison:
             driver = "%s+poison%d" % (driver, poison)
         out = os.path.join(self.scratch, "par-%s-%d.ndjson" % (driver, self.seed + seed_off))
-        cmd = [vr, "conc", "parallel", "-in", hp, "-out", out, "-goroutines", str(goroutines), "-rounds", str(rounds)] + (["-rereg"] if rereg else [])
+        cmd = [vr, "conc", "parallel", "-in", hp, "-out", out, "-goroutines", str(goroutines), "-rounds", str(rounds)] + (["-rereg"] if rereg else []) + (["-hammer", str(hammer)] if hammer else [])
         p = subprocess.run(cmd, capture_output=True, text=True, timeout=3600,
                            env=dict(os.environ, GORACE="halt_on_error=0 exitcode=66", VERIF_SCHEMA=SCHEMA))
         raced = "DATA RACE" in p.stderr or p.returncode == 66
